@@ -153,6 +153,7 @@ class Monitor:
         self.failed_delete = set()    # sessions whose deletion was rejected at some point
         self.ctr_lost = set()         # (lseid, pdr id) whose stored ctrID is the 0 a modification left (Update PDR / Create PDR)
         self.poisoned = {}            # (kind, id) -> session whose REJECTED deletion put the id back into its pool
+        self.zero_released = set()    # counter cells put into the pool by the deletion of a session whose PDR carried them as the bogus ctrID
 
     def flag(self, i, sig, msg):
         self.out.append((sig, f"step {i} ({self.case['steps'][i]['op']}/{self.case['steps'][i].get('kind', '')}): {msg}", i))
@@ -168,6 +169,8 @@ class Monitor:
                 for p in s["rules"]["pdrs"]:
                     if p["ctr"] == ident and (s["lseid"], p["id"]) in self.ctr_lost:
                         return "modification-zeroes-ctr"
+            if ident in self.zero_released:
+                return "modification-zeroes-ctr"
         if self.poisoned.get((kind, ident)) in live:
             return "released-before-failed-delete"
         return None
@@ -220,6 +223,13 @@ class Monitor:
             for (k, o, v, changed) in events:
                 if o == "add":
                     self.poisoned[(k, v)] = step["lseid"]
+        if op == "del":
+            # the deletion of a session whose PDR carries the bogus ctrID 0 releases cell 0, whoever owns it
+            for (k, o, v, changed) in events:
+                if k == "ctr" and o == "add" and any(p["ctr"] == v and (s_["lseid"], p["id"]) in self.ctr_lost
+                                                     for s_ in prev["store"] if s_["lseid"] == step["lseid"] for p in s_["rules"]["pdrs"]):
+                    self.zero_released.add(v)
+        self.zero_released = {v for v in self.zero_released if any(p["ctr"] == v for s_ in st["store"] for p in s_["rules"]["pdrs"])}
         if op == "mod":
             before = {p["id"]: p["ctr"] for s in prev["store"] if s["lseid"] == step["lseid"] for p in s["rules"]["pdrs"]}
             after = {p["id"]: p["ctr"] for s in st["store"] if s["lseid"] == step["lseid"] for p in s["rules"]["pdrs"]}
@@ -303,7 +313,7 @@ class Monitor:
                 for ident, owner, users in hp[k]:
                     if users and users <= {step["lseid"]}:
                         ending[k][ident] = owner
-        taken = {k: [] for k in KINDS}
+        taken = []                    # outstanding allocations of this step, in order: (kind, id)
         prev_live = set(live_sessions(prev))
         prev_held_live = {k: {ident for ident, _, users in held_all(prev)[k] if users & prev_live} for k in KINDS}
         prev_inst = installed(prev, self.prev_tables)
@@ -311,25 +321,26 @@ class Monitor:
             if o == "pop":
                 if v < 0:
                     continue
-                taken[k].append(v)
+                taken.append((k, v))
                 if v in prev_held_live[k] or any(ident == v for ident, _, _ in prev_inst[k]):
                     tag = self.why(k, v, prev)
                     self.flag(i, f"handed-out-while-in-use/{k}" + (f"/{tag}" if tag else ""),
                               f"{k} {v} was handed out although a live session still used it")
             else:
-                if v in taken[k]:
-                    taken[k].remove(v)
+                if (k, v) in taken:
+                    taken.remove((k, v))
                     if not changed:
                         self.flag(i, f"double-release/{k}", f"{k} {v} rolled back into its pool although it was already there")
                     continue
-                src = [k2 for k2 in KINDS if k2 != k and v in taken[k2]]
                 if v in ending[k]:
                     if not changed:
                         tag = self.why(k, v, prev)
                         self.flag(i, f"double-release/{k}" + (f"/{tag}" if tag else ""), f"{k} {v} ({ending[k][v]}) released although it was already free")
                     continue
+                src = [k2 for (k2, v2) in taken if v2 == v and k2 != k]
                 if src:
-                    self.flag(i, f"migration/{src[0]}->{k}", f"id {v} taken from pool {src[0]} was put into pool {k}")
+                    taken.remove((src[-1], v))
+                    self.flag(i, f"migration/{src[-1]}->{k}", f"id {v} taken from pool {src[-1]} was put into pool {k}")
                 else:
                     self.flag(i, f"foreign-release/{k}", f"{k} {v} was put into its pool by a step that neither took it nor ends its owner")
         self.prev_tables = so["tables"]
